@@ -166,6 +166,30 @@ def utf16_sep(data):
 
 _add("utf16_nul_separated_runs", _WT2, utf16_sep, funcs=["multidecoder.decoders.codec.find_utf16"])
 
+# 55000..55999 straddles the start of the surrogate block 55296..57343 (unencodable: must not be reported)
+_t5s, _b5s = _chr(b"Chr(5", 4, 0)
+
+
+def _chr5(data, _b=_b5s):
+    return _b(data)
+
+
+def _mk5():
+    t = Tmpl(1, b"Chr(55", (3, "digit"), b")", 1)
+
+    def body(data):
+        n = 55000 + digits_value(list(data[7:10]))
+        if is_surrogate(n):
+            r, _ = none(find_chr, data, "find_chr")
+            return r, True
+        return exactly(find_chr, data, 1, len(data) - 1, "string", "function.chr", utf8_encode(n), "find_chr")
+
+    return t, body
+
+
+_t5x, _b5x = _mk5()
+_add("chr_55000_55999_surrogates", _t5x, _b5x, funcs=["multidecoder.decoders.chr.find_chr"])
+
 # five free digits: split by the leading digit so that each process has 4 free digits
 _t5, _b5 = _chr(b"ChrW(", 5, 0)
 OBLIGATIONS.append(mk_template_ob(globals(), "chrw_5digits", _t5, _b5, tier="thorough", timeout=1800,
